@@ -65,6 +65,25 @@ DEAD_CODE = [
 ]
 
 
+# operators the lowering model does not cover (the per-output properties need no model): division and remainder
+DIVISIONS = [
+    "{ RddV = RssV / RttV; }", "{ RddV = RssV / RtV; }", "{ uint32_t a = RsV; RdV = a / RtV; }", "{ RdV = RsV / PtV; }", "{ RddV = RssV / (RtV + RuV); }",
+    "{ RddV = RssV % ((int64_t)RtV); }", "{ RdV = RsV % RtV; }", "{ RdV = RsV / 3; }", "{ RdV = (RsV / RtV) + (RsV % RtV); }", "{ uint8_t a = RsV; uint16_t b = RtV; RdV = a / b; }",
+]
+# C11/C16/C10: a constant ?: whose DEAD arm is a compound expression sharing operands with live code (the dead arm must not take
+# the declarations of its operands with it)
+DEAD_COMPOUND_ARMS = [
+    "{ RdV = ((8 != 0) ? RsV : (RsV >> 8)); }", "{ RdV = (1 ? RsV : (RsV + RtV)); ReV = RtV; }", "{ RdV = (0 ? (RsV * RtV) : RtV); ReV = RsV; }",
+    "{ RdV = ((16 != 0) ? sextract64(RsV, 0, 16) : (RsV & RtV)); ReV = RtV + 1; }", "{ RdV = RsV + RtV; ReV = (0 ? ((RsV - RtV) << 2) : 5); }",
+    "{ RdV = ((1 == 1) ? (RsV | siV) : (siV + RtV)); }", "{ PdV = (1 ? PuV : (PuV & PvV)); }", "{ RddV = (0 ? (RssV + RttV) : RssV); }",
+]
+# stores whose data is a folded constant of exactly the store's type / another type
+CONST_STORES = [
+    "{ EA = RsV; mem_store_u32(EA, 5); }", "{ EA = RsV; mem_store_u32(EA, -5); }", "{ EA = RsV; mem_store_u32(EA, ~0U); }", "{ EA = RsV; mem_store_u32(EA, 2 + 3); }",
+    "{ EA = RsV; mem_store_u64(EA, -1LL); }", "{ EA = RsV; mem_store_u64(EA, 1ULL << 3); }", "{ EA = RsV; mem_store_u8(EA, 0x100 - 1); }", "{ EA = RsV; mem_store_u16(EA, -(2 * 4)); }",
+]
+
+
 def problems_for(prop: str, rep: dict) -> list[str]:
     if "error" in rep:
         return ["driver error: " + rep["error"][:100]]
@@ -166,10 +185,12 @@ def records_of_programs(gen_srcs, viol) -> int:
 SUB_BUNDLE_SPELLINGS = ["HexInsnPktBundle *bundle", "HexInsnPktBundle* bundle", "const HexInsnPktBundle *bundle", "HexInsnPktBundle  *bundle",
                         "HexInsnPktBundle * bundle"]
 SUB_BODIES = [("uint32_t", ["uint32_t a"], "{ return a + HEX_REG_ALIAS_USR; }"), ("uint32_t", ["uint32_t a"], "{ uint32_t x = a + RsV; return x; }"),
-              ("uint32_t", ["uint32_t a"], "{ return a + siV; }"), ("uint32_t", ["uint32_t a"], "{ return a + 1; }")]
+              ("uint32_t", ["uint32_t a"], "{ return a + siV; }"), ("uint32_t", ["uint32_t a"], "{ return a + 1; }"),
+              ("int64_t", ["int64_t a", "int32_t b"], "{ return a / b; }"), ("uint32_t", ["uint32_t a", "uint8_t b"], "{ return (a % b) + (a / b); }"),
+              ("uint32_t", ["uint32_t a"], "{ return (a * a) + a; }")]
 
 
-def api_sub_routines(viol) -> int:
+def api_sub_routines(viol, prop="C11") -> int:
     """Sub-routines registered through the public API (`compile_sub_routine`): a body that mentions hi / pkt declares
     them, whatever legal spelling the bundle parameter's type has (Lean's wfBody on the DEF text)."""
     from rzilcompiler.Transformer.Hybrids.SubRoutine import SubRoutineInitType
@@ -192,11 +213,32 @@ def api_sub_routines(viol) -> int:
             n_, ret_s, ps, text = d[0]
             sess.def_sub(n_, ret_s, ps, text, tag=len(done))
             done.append((name, sp, body, text))
+    # a routine registered a SECOND time (other parameter widths) next to routines compiled before and after it: every body
+    # must call it with the signature its emitted definition has
+    k0 = len(done)
+    hist = [("api_h_leaf", "uint32_t", ["uint32_t t"], "{ return t + 1; }"), ("api_h_user1", "uint32_t", ["uint32_t v"], "{ return api_h_leaf(v) + 2; }"),
+            ("api_h_leaf", "uint32_t", ["uint64_t t"], "{ return t + 1; }"), ("api_h_user2", "uint32_t", ["uint32_t v"], "{ return api_h_leaf(v) + 3; }"),
+            ("api_h_leaf", "uint16_t", ["uint16_t t"], "{ return t + 1; }"), ("api_h_user3", "uint64_t", ["uint64_t v"], "{ return api_h_leaf(v) + api_h_user1(v); }")]
+    for name, ret, params, body in hist:
+        try:
+            with rc.quiet():
+                c.add_sub_routine(name, ret, params, body)
+        except Exception:
+            continue
+    for n_, ret_s, ps, text in rc.sub_routine_defs(c):
+        if n_.startswith("api_h_"):
+            sess.def_sub(n_, ret_s, ps, text, tag=len(done))
+            done.append((n_, "registration history", "", text))
     for tag, rep in (sess.run() if done else []):
         if tag is None:
             continue
         name, sp, body, text = done[tag]
-        probs = [p_ for p_ in rep.get("c11", []) if re.search(r"\b(hi|pkt)\b", p_)]
+        if prop == "C10":
+            probs = list(rep.get("c10", []))
+        elif prop == "C12":
+            probs = list(rep.get("c12", []))
+        else:
+            probs = [p_ for p_ in rep.get("c11", []) if tag >= k0 or re.search(r"\b(hi|pkt)\b", p_)]
         if probs:
             viol.append({"what": probs[:3], "scope": "api-sub", "ident": name, "bundle_parameter": sp, "program": body, "emitted": text,
                          "reproduce": f"Compiler.compile_sub_routine({name!r}, 'uint32_t', [{sp!r}, 'uint32_t a'], {body!r})"})
@@ -382,7 +424,7 @@ def run_prop(prop: str, tier: str, replay=None) -> int:
     # ---- generated programs ------------------------------------------------------------------------
     n_clean, n_wild = (120, 120) if tier == "quick" else (1500, 1500)
     items, gstats = textcheck.gen_run(n_clean, n_wild, CLEAN_FORBIDDEN[prop], rng_salt=int(prop[1:]),
-                                      extra_programs=REPEATS + (DEAD_CODE if prop == "C16" else []))
+                                      extra_programs=REPEATS + DIVISIONS + (DEAD_CODE if prop == "C16" else []) + (DEAD_COMPOUND_ARMS + CONST_STORES if prop in ("C11", "C16", "C10") else []))
     # sub-routines whose compiled body sets a compiler temporary h_tmpN (flat namespace shared with callers)
     tmp_callees = [n for n, _, _, text in rc.sub_routine_defs(rc.compiler()) if 'SETL("h_tmp' in text]
     for it in items:
@@ -402,7 +444,8 @@ def run_prop(prop: str, tier: str, replay=None) -> int:
     api_subs = 0
     if prop == "C11":
         rec_checked += records_of_programs([it["src"] for it in items if it["status"] == "ok"][:60], viol)
-        api_subs = api_sub_routines(viol)
+    if prop in ("C10", "C11", "C12"):
+        api_subs = api_sub_routines(viol, prop)
     for k in known_for(prop):
         if k.get("scope") == "corpus" and known_hit.get(k["id"]):
             res.known(f"{k['id']}: {k['what']} [corpus instruction {k['insn']}] ({k.get('site', '')})")
